@@ -258,6 +258,16 @@ theorem handler_enc (C : Crypto) (ps : Pairings) (fresh : Nat) (c : Conn) (body 
     | (simp_all; done)
     | (right; left; exact ⟨_, _, by assumption, rfl, rfl⟩)
 
+/-- A request that hands out no shared key leaves the identity and the privilege flag of the
+    connection exactly as they were. -/
+theorem handler_refused_identity (C : Crypto) (ps : Pairings) (fresh : Nat) (c : Conn) (body : Bytes) :
+    (handlePairVerify C ps fresh c body).2.shared = none →
+      (handlePairVerify C ps fresh c body).1.client = c.client ∧
+      (handlePairVerify C ps fresh c body).1.verified = c.verified := by
+  unfold handlePairVerify verifyOne verifyTwo
+  repeat' split
+  all_goals simp_all
+
 /-! ### Pairing map -/
 
 theorem getKey_filter_ne (ps : Pairings) (u : Uuid) :
@@ -357,6 +367,7 @@ theorem step_conn_other (C : Crypto) (s : Sys) (op : Op) (c : Nat)
   | pair u k a => simp [step]
   | unpair u => simp [step]
   | get d => simp [step]
+  | list d => simp [step]
   | verify d body =>
     have : c ≠ d := by
       intro e; subst e; exact h body rfl
@@ -403,6 +414,11 @@ theorem good_step (C : Crypto) (s : Sys) (op : Op) (g : Good C s) : Good C (step
     · intro c ctx h; exact g.consistent c ctx (by simpa [step] using h)
     · intro c d x y hne hx hy; exact g.distinct c d x y hne (by simpa [step] using hx) (by simpa [step] using hy)
   | get e =>
+    constructor
+    · intro c ctx h; have := g.lt c ctx (by simpa [step] using h); simp [step]; omega
+    · intro c ctx h; exact g.consistent c ctx (by simpa [step] using h)
+    · intro c d x y hne hx hy; exact g.distinct c d x y hne (by simpa [step] using hx) (by simpa [step] using hy)
+  | list e =>
     constructor
     · intro c ctx h; have := g.lt c ctx (by simpa [step] using h); simp [step]; omega
     · intro c ctx h; exact g.consistent c ctx (by simpa [step] using h)
